@@ -140,7 +140,7 @@ class StmtMixin:
         v = self.ev(s.value, env, mod, fn) if s.value else NONE
         if env.dead:
             return
-        exits.append((list(env.pc), v, env.heap, list(env.facts)))
+        exits.append((list(env.pc), v, self.heap_with_byref(env), list(env.facts)))
         if getattr(self, "log_exit_vars", False):
             self.exit_vars.append((len(self.where), dict(env.vars)))      # (call depth, local variables) at this return
         env.dead = True
@@ -213,6 +213,12 @@ class StmtMixin:
             env.adopt(e1)
             return
         j = join_envs([e1, e2], [c, nc])
+        if getattr(self, "guarded_join", False):
+            # keep what only one branch knows as an implication of its condition (c -> f, i.e. not c or f)
+            for e_, c_, n_ in ((e1, c, nc), (e2, nc, c)):
+                for f_ in e_.facts:
+                    if f_ not in j.facts and f_ != c_ and len(j.facts) < 200:
+                        j.facts.append(binop("or", n_, f_))
         j.pc = list(env.pc)
         env.adopt(j)
 
@@ -307,15 +313,10 @@ class StmtMixin:
         # discovery pass: which variables / heap cells does the body modify?
         probe = env.clone()
         self.quiet += 1
-        self.loop_stack.append({"breaks": [], "kind": "probe"})
         try:
             self.assign(s.target, elem, probe, mod, fn)
-            try:
-                self.block(s.body, probe, mod, fn, [])
-            except Unsupported:
-                raise
+            self._loop_body(s, probe, mod, fn, [], {"breaks": [], "kind": "probe"})
         finally:
-            self.loop_stack.pop()
             self.quiet -= 1
         mod_vars = [k for k, v in probe.vars.items() if k in before_vars and before_vars[k] != v]
         mod_heap = [k for k, v in probe.heap.items() if k in before_heap and before_heap[k] != v]
@@ -333,12 +334,8 @@ class StmtMixin:
         for k in mod_heap:
             body_env.heap[k] = self.fresh_sym(f"loop({k[1]})", ty=before_heap[k].ty)
         frame = {"breaks": [], "kind": "for"}
-        self.loop_stack.append(frame)
-        try:
-            self.assign(s.target, elem, body_env, mod, fn)
-            self.block(s.body, body_env, mod, fn, exits)
-        finally:
-            self.loop_stack.pop()
+        self.assign(s.target, elem, body_env, mod, fn)
+        self._loop_body(s, body_env, mod, fn, exits, frame)
         for k in mod_vars:
             if k in acc:
                 kind, payload = acc[k]
@@ -369,6 +366,30 @@ class StmtMixin:
         env.pc = pc
         env.dead = False
 
+    def _join_continues(self, env, frame):
+        """the state at the end of one execution of a loop body: the fall-through state joined with every `continue`"""
+        conts = frame.pop("continued", None)
+        if not conts:
+            return
+        live = ([env.clone()] if not env.dead else []) + conts
+        if len(live) == 1:
+            j = live[0]
+        else:
+            base = len(env.pc)
+            j = join_envs(live, [conj(e.pc[base:]) if e.pc[base:] else TRUE for e in live])
+        pc = list(env.pc)
+        env.adopt(j)
+        env.pc = pc
+        env.dead = False
+
+    def _loop_body(self, s, env, mod, fn, exits, frame):
+        self.loop_stack.append(frame)
+        try:
+            self.block(s.body, env, mod, fn, exits)
+        finally:
+            self.loop_stack.pop()
+        self._join_continues(env, frame)
+
     def st_While(self, s, env, mod, fn, exits):
         # constant-false condition
         c0 = truthy(self.ev(s.test, env.clone(), mod, fn))
@@ -386,11 +407,9 @@ class StmtMixin:
             probe.pc.append(c0)
         else:
             self.quiet += 1
-        self.loop_stack.append({"breaks": [], "kind": "probe"})
         try:
-            self.block(s.body, probe, mod, fn, [])
+            self._loop_body(s, probe, mod, fn, [], {"breaks": [], "kind": "probe"})
         finally:
-            self.loop_stack.pop()
             if not peel:
                 self.quiet -= 1
         # further peeled iterations (peel_depth > 1): each continues from the state the previous one ended in
@@ -403,11 +422,7 @@ class StmtMixin:
                     break
                 nxt.add_fact(ck_)
                 nxt.pc.append(ck_)
-                self.loop_stack.append({"breaks": [], "kind": "probe"})
-                try:
-                    self.block(s.body, nxt, mod, fn, [])
-                finally:
-                    self.loop_stack.pop()
+                self._loop_body(s, nxt, mod, fn, [], {"breaks": [], "kind": "probe"})
                 if nxt.dead:
                     break
                 cur = nxt
@@ -439,11 +454,7 @@ class StmtMixin:
         body.add_fact(c)
         body.pc.append(c)
         frame = {"breaks": [], "kind": "while", "node": s}
-        self.loop_stack.append(frame)
-        try:
-            self.block(s.body, body, mod, fn, exits)
-        finally:
-            self.loop_stack.pop()
+        self._loop_body(s, body, mod, fn, exits, frame)
         if not self.quiet:
             self.notes.append({"kind": "loop-end", "node": s, "func": self.cur_func(),
                                "head": {k: head.vars[k] for k in mod_vars},
@@ -471,6 +482,9 @@ class StmtMixin:
         pc = list(env.pc)
         env.adopt(after)
         env.pc = pc
+        if s.orelse and not env.dead:
+            # while ... else: the else suite runs when the test becomes false, not after a break
+            self.block(s.orelse, env, mod, fn, exits)
         self._join_breaks(env, frame)
 
     def infer_loop_invariants(self, s, env, head, mod_vars, entry_values, mod, fn):
@@ -496,11 +510,9 @@ class StmtMixin:
             c_ = truthy(self.ev(s.test, b, mod, fn))
             b.add_fact(c_)
             self.quiet += 1
-            self.loop_stack.append({"breaks": [], "kind": "probe"})
             try:
-                self.block(s.body, b, mod, fn, [])
+                self._loop_body(s, b, mod, fn, [], {"breaks": [], "kind": "probe"})
             finally:
-                self.loop_stack.pop()
                 self.quiet -= 1
             return b
         ints = [k for k in mod_vars if (entry_values[k].ty == "int" or (entry_values[k].k == "const" and isinstance(entry_values[k].a[0], int)
@@ -589,7 +601,7 @@ class StmtMixin:
         env.dead = True
 
     def st_Continue(self, s, env, mod, fn, exits):
-        if self.loop_stack and self.loop_stack[-1]["kind"] == "for":
+        if self.loop_stack:
             self.loop_stack[-1].setdefault("continued", []).append(env.clone())
         env.dead = True
 
